@@ -15,13 +15,13 @@ import (
 	"os"
 	"strconv"
 
+	td "github.com/go-text/typesetting-utils/opentype"
 	"github.com/go-text/typesetting/di"
 	"github.com/go-text/typesetting/font"
 	ot "github.com/go-text/typesetting/font/opentype"
 	"github.com/go-text/typesetting/language"
 	"github.com/go-text/typesetting/segmenter"
 	"github.com/go-text/typesetting/shaping"
-	td "github.com/go-text/typesetting-utils/opentype"
 	"golang.org/x/image/math/fixed"
 )
 
@@ -217,8 +217,14 @@ var reuseParas = map[int]synth{
 	3: {text: []rune("abcd efg"), clusters: []int{0, 2, 4, 5, 6}, runSplit: []int{0}, dirs: []int{1}, glyphsPer: 2},
 }
 
-func wrapCfg() shaping.WrapConfig {
-	return shaping.WrapConfig{Direction: di.DirectionLTR, BreakPolicy: shaping.Always, Truncator: makeTruncator(di.DirectionLTR, fixed.I(1))}
+// the configuration is part of the arguments: paragraphs 2 and 3 are wrapped with a line limit
+func wrapCfg(para int) shaping.WrapConfig {
+	c := shaping.WrapConfig{Direction: di.DirectionLTR, BreakPolicy: shaping.Always, Truncator: makeTruncator(di.DirectionLTR, fixed.I(1))}
+	if para >= 2 {
+		c.TruncateAfterLines = para
+		c.TextContinues = para == 3
+	}
+	return c
 }
 
 // applyWrapOps replays ops on lw and returns the digest of the LAST op's result
@@ -226,7 +232,7 @@ func applyWrapOp(lw *shaping.LineWrapper, op reuseOp) (string, []shaping.Line) {
 	switch op.Op {
 	case "WrapParagraph":
 		s := reuseParas[op.Para]
-		lines, tr := lw.WrapParagraph(wrapCfg(), op.W, s.text, shaping.NewSliceIterator(s.build()))
+		lines, tr := lw.WrapParagraph(wrapCfg(op.Para), op.W, s.text, shaping.NewSliceIterator(s.build()))
 		var b bytes.Buffer
 		for _, l := range lines {
 			b.WriteString(lineDigest(l))
@@ -234,7 +240,7 @@ func applyWrapOp(lw *shaping.LineWrapper, op reuseOp) (string, []shaping.Line) {
 		return digestOf(b.String(), tr), lines
 	case "Prepare":
 		s := reuseParas[op.Para]
-		lw.Prepare(wrapCfg(), s.text, shaping.NewSliceIterator(s.build()))
+		lw.Prepare(wrapCfg(op.Para), s.text, shaping.NewSliceIterator(s.build()))
 		return "-", nil
 	default:
 		wl, done := lw.WrapNextLine(op.W)
